@@ -453,7 +453,14 @@ def session(case, sizes):
                 return
             t0 = Metrics.consumeTrace("K", "intersect_0")
             t1 = Metrics.consumeTrace("K", "intersect_1")
-            for name, _, arity in MODELS:
+            # the same consumed lists go to every model, in an order that differs from case to case: a model
+            # must not change the rows it is given
+            k0, k1 = copy.deepcopy(t0), copy.deepcopy(t1)
+            rot = len(case["pairs"]) % len(MODELS)
+            for name, _, arity in MODELS[rot:] + MODELS[:rot]:
+                if (t0, t1) != (k0, k1):
+                    raise Violation("traces-modified", f"a cost model changed the trace rows it was given "
+                                    f"(batch {state['batch']}, before model {name})")
                 if name in dead:
                     continue
                 m = models[name]
@@ -467,6 +474,8 @@ def session(case, sizes):
                     m.addTraces(t0)
                 else:
                     m.addTraces(t1)
+            if (t0, t1) != (k0, k1):
+                raise Violation("traces-modified", f"a cost model changed the trace rows it was given (batch {state['batch']})")
             state["batch"] += 1
 
         if case["mode"] == "loose":
